@@ -720,7 +720,7 @@ func (r *Runner) runStep(sc *Scenario, i int, step Step, w *world, M, srcDir, ou
 			}
 		} else if !postExists {
 			add(i, "C17", "success-without-file", "", "%s exited 0 but %s does not exist", cmdline, pl.Out)
-		} else if !bytes.Equal(postBytes, ref.Stdout) {
+		} else if !bytes.Equal(postBytes, ref.Stdout) && !r.equalsRefWithoutPrior(step, preExists, preIsDir, refRoot, outRel, refArgs, tmp, postBytes, st) {
 			prop, class := "C17", "success-incomplete-or-different-file"
 			if step.Rm && w.prior != "absent" {
 				prop, class = "C15", "rm-result-depends-on-prior-content"
@@ -769,6 +769,23 @@ func (r *Runner) runStep(sc *Scenario, i int, step Step, w *world, M, srcDir, ou
 		w.lastOK = false
 	}
 	w.lastRun, w.touched = copyStep(step), false
+}
+
+// equalsRefWithoutPrior: without -rm the old content of -out may or may not
+// influence the new file (both are acceptable: the property only fixes the
+// -rm case); a file that differs from the stdout-mode reference taken with the
+// old file in place is still complete and correct if it equals the reference
+// taken with the old file removed.
+func (r *Runner) equalsRefWithoutPrior(step Step, preExists, preIsDir bool, refRoot, outRel string, refArgs []string, tmp string, got []byte, st *Stats) bool {
+	if step.Rm || !preExists || preIsDir {
+		return false
+	}
+	if err := os.Remove(filepath.Join(refRoot, outRel)); err != nil {
+		return false
+	}
+	ref2 := r.runMoq(filepath.Join(refRoot, "src"), refArgs, nil, tmp)
+	st.MoqRuns++
+	return ref2.Exit == 0 && bytes.Equal(got, ref2.Stdout)
 }
 
 // wroteAfterLastFault reports whether, after the last injected failure, moq
